@@ -1,11 +1,391 @@
-import Pywbem.Model.MofCompile
+/-
+C09 — "The MOF compiler is total: it succeeds or raises MOFCompileError" — property theorems over
+Model/MofCompile.lean.
+
+PARTIAL by nature: PLY's LALR engine (which token or production an error is reported for, error recovery) and the
+CIM object constructors called by the semantic actions are not in the model; for them only the correspondence
+run K and the oracle speak.  What is proved here, for ALL inputs / scripts / histories:
+  * the lexer is a total function whose tokens tile the text, with an exact line counter;
+  * an error reported at a token lies inside the text (line and column);
+  * `#pragma namespace` / `#pragma include` handling raises nothing but MOFParseError / OSError / what the nested
+    compile raises;
+  * the repository-error translation of the semantic actions, as decision procedures over scripted answers, is total
+    where the code translates, with the exact leak conditions as `_partial` theorems + negation witnesses;
+  * the per-compiler state after any history of failed compiles gives a new compile the state a fresh compiler gives.
+-/
+import Proofs.Lemmas.MofCompile
 
 namespace C09
 open Pywbem.Proto Pywbem.Generated Pywbem.Model.MofCompile
+open Pywbem.Model.MofLex (Str isDigit)
 
-/-- the order of the token rules in PLY's master regular expression is the one the model's `lexAt` follows -/
-theorem C09_lexer_rule_order_pinned :
-    mofTokenRules.map (·.1) = ["COMMENT", "MCOMMENT", "floatValue", "hexValue", "binaryValue", "octalValue",
-      "decimalValue", "charValue", "stringValue", "IDENTIFIER", "newline"] := by decide
+deriving instance DecidableEq for Except
+
+/-! ## tables extracted from the source are the ones the model was written against -/
+
+/-- the `t_*` rules in source order (= alternation order of PLY's master regex) with their regular expressions are
+    exactly those `lexAt` implements; a changed rule or rule order breaks this obligation -/
+theorem C09_lexer_rules_pinned : mofTokenRules = [
+    ("COMMENT", "//.*"),
+    ("MCOMMENT", "/\\*(.|\\n)*?\\*/"),
+    ("floatValue", "[+-]?[0-9]*\\.[0-9]+([eE][+-]?[0-9]+)?"),
+    ("hexValue", "[+-]?0[xX][0-9a-fA-F]+"),
+    ("binaryValue", "[+-]?[0-9]+[bB]"),
+    ("octalValue", "[+-]?0[0-9]+"),
+    ("decimalValue", "[+-]?([1-9][0-9]*|0)"),
+    ("charValue", "'([^'\\\\\\n\\r]|([\\\\](([bfnrt'\"\\\\])|([xX][0-9a-fA-F]{1,4}))))'"),
+    ("stringValue", "\"([^\"\\\\\\n\\r]|([\\\\](([bfnrt'\"\\\\])|([xX][0-9a-fA-F]{1,4}))))*\""),
+    ("IDENTIFIER", "([a-zA-Z_]|(([\\xC2-\\xDF][\\x80-\\xBF])|(\\xE0[\\xA0-\\xBF][\\x80-\\xBF])|([\\xE1-\\xEC][\\x80-\\xBF][\\x80-\\xBF])|(\\xED[\\x80-\\x9F][\\x80-\\xBF])|([\\xEE-\\xEF][\\x80-\\xBF][\\x80-\\xBF])|(\\xF0[\\x90-\\xBF][\\x80-\\xBF][\\x80-\\xBF])|([\\xF1-\\xF3][\\x80-\\xBF][\\x80-\\xBF][\\x80-\\xBF])|(\\xF4[\\x80-\\x8F][\\x80-\\xBF][\\x80-\\xBF])))([0-9a-zA-Z_]|(([\\xC2-\\xDF][\\x80-\\xBF])|(\\xE0[\\xA0-\\xBF][\\x80-\\xBF])|([\\xE1-\\xEC][\\x80-\\xBF][\\x80-\\xBF])|(\\xED[\\x80-\\x9F][\\x80-\\xBF])|([\\xEE-\\xEF][\\x80-\\xBF][\\x80-\\xBF])|(\\xF0[\\x90-\\xBF][\\x80-\\xBF][\\x80-\\xBF])|([\\xF1-\\xF3][\\x80-\\xBF][\\x80-\\xBF][\\x80-\\xBF])|(\\xF4[\\x80-\\x8F][\\x80-\\xBF][\\x80-\\xBF])))*"),
+    ("newline", "\\n+")] := by rfl
+
+/-- `literals`, `t_ignore` and the size of `reserved`; no keyword is a non-ASCII or upper-case string -/
+theorem C09_lexer_tables_pinned :
+    mofLiterals = "#(){};[],$:=".toList.map Char.toNat ∧ mofIgnore = [32, 13, 9] ∧ mofReserved.length = 40 ∧
+    mofReserved.all (fun kv => kv.1.all (fun c => inR 97 122 c || isDigit c)) = true := by decide
+
+/-- the status codes each semantic action tests, and their values -/
+theorem C09_status_codes_pinned :
+    mofActionStatusCodes = [
+      ("p_mp_createClass", ["CIM_ERR_INVALID_NAMESPACE", "CIM_ERR_INVALID_SUPERCLASS", "CIM_ERR_INVALID_PARAMETER",
+                            "CIM_ERR_NOT_FOUND", "CIM_ERR_FAILED", "CIM_ERR_ALREADY_EXISTS"]),
+      ("p_mp_createInstance", ["CIM_ERR_ALREADY_EXISTS"]),
+      ("p_mp_setQualifier", ["CIM_ERR_INVALID_NAMESPACE", "CIM_ERR_NOT_SUPPORTED"]),
+      ("p_qualifier", ["CIM_ERR_INVALID_NAMESPACE"]),
+      ("p_instanceDeclaration", ["CIM_ERR_NOT_FOUND"])] ∧
+    mofCimErr_failed = 1 ∧ mofCimErr_invalid_namespace = 3 ∧ mofCimErr_invalid_parameter = 4 ∧
+    mofCimErr_not_found = 6 ∧ mofCimErr_not_supported = 7 ∧ mofCimErr_invalid_superclass = 10 ∧
+    mofCimErr_already_exists = 11 := by decide
+
+/-! ## the lexer -/
+
+/-- lexer_total: for EVERY text the lexer returns a token stream (it is a total function) whose tokens are
+    non-empty, lie inside the text and do not overlap (positions strictly increase), and the loop ended by itself:
+    any larger amount of fuel gives the same stream.  (An exception out of token() is the last token,
+    `raiseValueError`: see `C09_lexer_no_leak_partial`.) -/
+theorem C09_lexer_total (src : Str) :
+    (∀ t ∈ lexAll src, 1 ≤ t.len ∧ t.pos + t.len ≤ src.length) ∧
+    (lexAll src).Pairwise (fun a b => a.pos + a.len ≤ b.pos) ∧
+    (∀ fuel, src.length < fuel → lexLoop fuel 0 1 src = lexAll src) := by
+  refine ⟨?_, lexLoop_sorted _ _ _ _, ?_⟩
+  · intro t ht
+    have := lexLoop_inv _ _ _ _ t ht
+    exact ⟨this.2.2.1, by omega⟩
+  · intro fuel h
+    exact lexLoop_fuel fuel (src.length + 1) 0 1 src h (by omega)
+
+/-- the line counter the lexer holds when it returns a token is exactly the line the token starts on
+    (1 + number of newlines before it); in particular 1 ≤ line ≤ number of lines of the text.
+    Holds because `\n+` and `/* */` add their newlines and no other token contains one (after the fix of
+    t_MCOMMENT, which added to the discarded token instead of the lexer). -/
+theorem C09_lexer_line_exact (src : Str) (t : Tok) (ht : t ∈ lexAll src) :
+    t.line = 1 + countNl (src.take t.pos) ∧ 1 ≤ t.line ∧ t.line ≤ numLines src := by
+  have := (lexLoop_inv _ _ _ _ t ht).2.2.2
+  simp only [Nat.sub_zero] at this
+  refine ⟨this, by omega, ?_⟩
+  rw [this]
+  have : countNl (src.take t.pos) ≤ countNl src := (List.take_sublist _ _).count_le _
+  unfold numLines; omega
+
+/-- (line, col) identifies a position inside `src`: some offset `k` of the text lies on line `line` and has at least
+    `col` characters of that same line in front of it -/
+def InsideAt (src : Str) (line col : Nat) : Prop :=
+  ∃ k, k ≤ src.length ∧ line = 1 + countNl (src.take k) ∧ col ≤ k ∧ countNl ((src.take k).drop (k - col)) = 0
+
+/-- error_position_in_bounds: the position reported for an error at any token the lexer returns
+    (`lexer.lineno`, `_find_column`) is a position inside the text, on the line of that token -/
+theorem C09_error_position_in_bounds (src : Str) (t : Tok) (ht : t ∈ lexAll src) :
+    InsideAt src (tokenErrorPos src t).1 (tokenErrorPos src t).2 := by
+  have h1 := (C09_lexer_total src).1 t ht
+  refine ⟨t.pos, by omega, (C09_lexer_line_exact src t ht).1, findColumn_le src t.pos, findColumn_sameLine src t.pos⟩
+
+/-- for errors raised in semantic actions the line is the lexer's (look-ahead token `la`) and the column comes from the
+    first token of the production: inside the text IF both are on the same line … -/
+theorem C09_production_position_partial (src : Str) (firstpos : Nat) (la : Tok) (hf : firstpos ≤ src.length)
+    (hsame : la.line = 1 + countNl (src.take firstpos)) :
+    InsideAt src (productionErrorPos src firstpos la).1 (productionErrorPos src firstpos la).2 :=
+  ⟨firstpos, hf, hsame, findColumn_le src firstpos, findColumn_sameLine src firstpos⟩
+
+/-- … and not in general (known finding C09-F2): `      x` / `;` — production starting at `x`, look-ahead `;` on the
+    next line gives line 2, column 5, but line 2 has one character -/
+theorem C09_production_position_fails_at :
+    ¬ ∀ (src : Str) (firstpos : Nat) (la : Tok), la ∈ lexAll src → firstpos ≤ la.pos →
+        posInside src (productionErrorPos src firstpos la) = true := by
+  intro h
+  have := h [32, 32, 32, 32, 32, 32, 120, 10, 59] 6 ⟨.literal, 8, 1, 2⟩ (by decide) (by decide)
+  revert this; decide
+
+/-- literal_no_leak (partial): the only exception that can leave the lexer is the ValueError of `int()` for a decimal
+    literal with more than 4300 digits (known finding C09-F1); a text whose decimal literals are shorter is lexed
+    without exception … -/
+theorem C09_lexer_no_leak_partial (s : Str)
+    (h : ∀ n, matchDecimal s = some n → n - signLen s ≤ maxStrDigits) : (lexAt s).1 ≠ .raiseValueError := by
+  unfold lexAt
+  split
+  · intro e; cases e
+  split
+  · intro e; cases e
+  split
+  · intro e; cases e
+  split
+  · intro e; cases e
+  split
+  · simp only []; split <;> (intro e; cases e)
+  split
+  · simp only []; split <;> (intro e; cases e)
+  split
+  · next n hd =>
+    have := h n hd
+    simp only []
+    split
+    · omega
+    · intro e; cases e
+  split
+  · intro e; cases e
+  split
+  · intro e; cases e
+  split
+  · intro e; cases e
+  split
+  · intro e; cases e
+  split
+  · simp only []; split <;> (intro e; cases e)
+  · intro e; cases e
+
+/-- … and one with 4301 nines is not -/
+theorem C09_lexer_no_leak_fails_at : ¬ ∀ (s : Str), (lexAt s).1 ≠ .raiseValueError := by
+  intro h
+  exact h (List.replicate 4301 57) (by decide +kernel)
+
+/-! ## compiler directives -/
+
+/-- directive_no_leak (namespace): for every parameter text and every `\w` classification, `#pragma namespace` either
+    raises MOFParseError or switches to a namespace that is a non-empty sequence of non-empty `\w`-segments separated
+    by single slashes — never AttributeError -/
+theorem C09_directive_no_leak (w : Nat → Bool) (param : Str) :
+    pragmaNamespace w param = .error .mofParseError ∨
+    ∃ ns, pragmaNamespace w param = .ok ns ∧ ns ≠ [] ∧ nsSegments w false ns = true :=
+  pragmaNamespace_cases w param
+
+/-- the defect the fix removed: before it `#pragma namespace ("1:")` raised AttributeError … -/
+theorem C09_directive_unfixed_leaked :
+    pragmaNamespaceUnfixed isIdChar [49, 58] = .error .attributeError := by decide
+
+/-- … and the fix changed nothing else -/
+theorem C09_directive_fix_conservative (w : Nat → Bool) (param : Str)
+    (h : pragmaNamespaceUnfixed w param ≠ .error .attributeError) :
+    pragmaNamespaceUnfixed w param = pragmaNamespace w param := by
+  unfold pragmaNamespaceUnfixed at h ⊢
+  split
+  · next hm => simp [hm] at h
+  · rfl
+
+/-- directive_no_leak (whole action): if the nested compile of an included file raises only allowed exceptions, so does
+    p_compilerDirective — for include, namespace and unknown pragmas, any file system -/
+theorem C09_compilerDirective_no_leak (w : Nat → Bool) (env : FsEnv) (file : Option Str) (ns directive param : Str)
+    (henv : ∀ f, noLeak (env.compile f) = true) :
+    noLeak (compilerDirective w env file ns directive param) = true := by
+  unfold compilerDirective
+  split
+  · have : noLeak (compileFile env (includePath file param)) = true := by
+      unfold compileFile
+      split
+      · exact henv _
+      · split
+        · rfl
+        · exact henv _
+    split
+    · rfl
+    · next e he => rw [he] at this; simpa [noLeak] using this
+  · split
+    · rcases pragmaNamespace_cases w param with h | ⟨n, h, _⟩ <;> simp [h, noLeak, allowed]
+    · rfl
+
+/-! ## translation of repository errors -/
+
+/-- repo_error_translation_total: for EVERY status code `c` outside the codes an action repairs, the first rejected
+    repository call of that action is translated into MOFRepositoryError -/
+theorem C09_repo_error_translation_total (c : Nat) :
+    (c ≠ 11 → ∀ gc p mi, mpCreateInstance (some c) gc p mi = .error .mofRepositoryError) ∧
+    (c ≠ 3 → c ≠ 7 → ∀ sv ns dq sq2, mpSetQualifier (some c) sv ns dq sq2 = .error .mofRepositoryError) ∧
+    (c ≠ 6 → ∀ mof gc2, instanceClassLookup (some c) mof gc2 = .error .mofRepositoryError) ∧
+    (c ≠ 3 → ∀ sv ns qf fd, qualifierLookup false (some c) sv ns qf fd = .error .mofRepositoryError) ∧
+    (c ≠ 3 → c ≠ 10 → c ≠ 4 → c ≠ 6 → c ≠ 1 → c ≠ 11 → ∀ (env : CcEnv) rest,
+        mpCreateClass { env with createClass := some c :: rest } = .error .mofRepositoryError) := by
+  refine ⟨?_, ?_, ?_, ?_, ?_⟩
+  · intro h gc p mi; simp [mpCreateInstance, mofCimErr_already_exists, h]
+  · intro h3 h7 sv ns dq sq2; simp [mpSetQualifier, mofCimErr_invalid_namespace, mofCimErr_not_supported, h3, h7]
+  · intro h mof gc2; simp [instanceClassLookup, mofCimErr_not_found, h]
+  · intro h sv ns qf fd; simp [qualifierLookup, mofCimErr_invalid_namespace, h]
+  · intro h3 h10 h4 h6 h1 h11 env rest
+    simp [mpCreateClass, ccLoop, nextAns, mofCimErr_invalid_namespace, mofCimErr_invalid_superclass,
+      mofCimErr_invalid_parameter, mofCimErr_not_found, mofCimErr_failed, mofCimErr_already_exists,
+      h3, h10, h4, h6, h1, h11]
+
+/-- actions_no_leak (p_mp_createInstance): total — whatever the repository answers to CreateInstance, GetClass and
+    ModifyInstance and whether or not the instance path can be built, the outcome is success or MOFRepositoryError -/
+theorem C09_createInstance_no_leak (ci gc : Ans) (pathOk : Bool) (mi : Ans) :
+    mpCreateInstance ci gc pathOk mi = .ok () ∨ mpCreateInstance ci gc pathOk mi = .error .mofRepositoryError := by
+  unfold mpCreateInstance
+  repeat' split
+  all_goals simp
+
+/-- actions_no_leak (p_mp_setQualifier), partial: no leak unless SetQualifier answers INVALID_NAMESPACE or
+    NOT_SUPPORTED (then the repair calls are outside the try block: known findings C09-F6a/F7) … -/
+theorem C09_setQualifier_no_leak_partial (sq1 : Ans) (sv : Bool) (ns : Option PyExc) (dq sq2 : Ans)
+    (h : sq1 ≠ some 3 ∧ sq1 ≠ some 7) : noLeak (mpSetQualifier sq1 sv ns dq sq2) = true := by
+  cases sq1 with
+  | none => rfl
+  | some c =>
+    have h3 : c ≠ 3 := fun e => h.1 (by rw [e])
+    have h7 : c ≠ 7 := fun e => h.2 (by rw [e])
+    simp [mpSetQualifier, mofCimErr_invalid_namespace, mofCimErr_not_supported, h3, h7, noLeak, allowed]
+
+/-- … and with them it leaks: NOT_SUPPORTED, then DeleteQualifier rejected with FAILED: raw CIMError;
+    INVALID_NAMESPACE without a server object: AttributeError -/
+theorem C09_setQualifier_fails_at :
+    ¬ ∀ (sq1 : Ans) (sv : Bool) (ns : Option PyExc) (dq sq2 : Ans), noLeak (mpSetQualifier sq1 sv ns dq sq2) = true := by
+  intro h
+  have := h (some 7) false none (some 1) none
+  revert this; decide
+
+/-- actions_no_leak (p_mp_createClass), partial: for EVERY script of CreateClass answers that contains neither
+    INVALID_NAMESPACE nor INVALID_SUPERCLASS, with the namespace registered in the qualifier cache and nested
+    compiles that do not leak, the outcome is success or an allowed exception … -/
+theorem C09_createClass_no_leak_partial (env : CcEnv) (hq : env.nsInQualcache = true)
+    (hqf : noLeak env.qualFiles = true) (hd : noLeak env.depsOutcome = true)
+    (hs : ∀ a ∈ env.createClass, a ≠ some 3 ∧ a ≠ some 10) : noLeak (mpCreateClass env) = true :=
+  mpCreateClass_partial env hq hqf hd hs
+
+/-- … INVALID_SUPERCLASS twice (the superclass file on the search path does not define the superclass) is an
+    AssertionError (C09-F10), INVALID_NAMESPACE without server object an AttributeError (C09-F6a) -/
+theorem C09_createClass_fails_at :
+    ¬ ∀ (env : CcEnv), env.nsInQualcache = true → noLeak env.qualFiles = true → noLeak env.depsOutcome = true →
+        noLeak (mpCreateClass env) = true := by
+  intro h
+  have := h { createClass := [some 10, some 10], hasServer := false, createNs := none, hasSuper := true,
+              superMof := some (.ok ()), nsInQualcache := true, qualsKnown := true, qualFiles := .ok (),
+              depsOutcome := .ok (), modifyClass := none } rfl rfl rfl
+  revert this; decide
+
+/-- the retry loop of p_mp_createClass terminates: at most one iteration per repair flag and one more -/
+theorem C09_createClass_loop_terminates (env : CcEnv) (fuel : Nat) (h : 4 ≤ fuel) (s : List Ans) :
+    ccLoop env fuel {} s = ccLoop env 4 {} s :=
+  ccLoop_fuel env fuel 4 {} s (by simp [CcFlags.unfixed]; omega) (by simp [CcFlags.unfixed])
+
+/-- actions_no_leak (p_instanceDeclaration class lookup), partial: no leak unless GetClass answers NOT_FOUND, a class
+    file is found and compiled, and GetClass fails again (that call is outside the try block: C09-F7) -/
+theorem C09_instanceClassLookup_no_leak_partial (gc1 : Ans) (mof : Option (Except PyExc Unit)) (gc2 : Ans)
+    (hm : ∀ r, mof = some r → noLeak r = true) (h : gc2 = none) :
+    noLeak (instanceClassLookup gc1 mof gc2) = true := by
+  subst h
+  cases gc1 with
+  | none => rfl
+  | some c =>
+    by_cases hc : (c == mofCimErr_not_found) = true
+    · cases mof with
+      | none => simp [instanceClassLookup, hc, noLeak, allowed]
+      | some r =>
+        have := hm r rfl
+        cases r with
+        | error e => simpa [instanceClassLookup, hc, noLeak] using this
+        | ok u => simp [instanceClassLookup, hc, noLeak]
+    · simp [instanceClassLookup, hc, noLeak, allowed]
+
+theorem C09_instanceClassLookup_fails_at :
+    ¬ ∀ (gc1 : Ans) (gc2 : Ans), noLeak (instanceClassLookup gc1 (some (.ok ())) gc2) = true := by
+  intro h
+  have := h (some 6) (some 6)
+  revert this; decide
+
+/-- actions_no_leak (p_qualifier lookup), partial: no leak unless EnumerateQualifiers answers INVALID_NAMESPACE
+    (create_namespace without server object / failing: C09-F6a/F6b) -/
+theorem C09_qualifierLookup_no_leak_partial (inCache : Bool) (eq : Ans) (sv : Bool) (ns : Option PyExc)
+    (qf : Except PyExc Unit) (found : Bool) (hq : noLeak qf = true) (h : eq ≠ some 3) :
+    noLeak (qualifierLookup inCache eq sv ns qf found) = true := by
+  unfold qualifierLookup
+  cases inCache with
+  | true => rfl
+  | false =>
+    cases eq with
+    | none =>
+      cases qf with
+      | error e => simpa [noLeak] using hq
+      | ok u => cases found <;> simp [noLeak, allowed]
+    | some c =>
+      have h3 : c ≠ 3 := fun e => h (by rw [e])
+      simp [mofCimErr_invalid_namespace, h3, noLeak, allowed]
+
+theorem C09_qualifierLookup_fails_at :
+    ¬ ∀ (eq : Ans) (found : Bool), noLeak (qualifierLookup false eq false none (.ok ()) found) = true := by
+  intro h
+  have := h (some 3) true
+  revert this; decide
+
+/-! ## reuse of the compiler object -/
+
+theorem stepCall_embedded (s : PState) (c : Call) (h : s.embedded = none) : (stepCall s c).embedded = none := by
+  cases c with
+  | str m n f e ok =>
+    simp only [stepCall, compileString]
+    split
+    · simpa [applyEffect, compilePrologue] using h
+    · split <;> simpa [applyEffect, compilePrologue] using h
+  | emb m n e ok => simp [stepCall, compileEmbedded]
+
+theorem runCalls_embedded (cs : List Call) : ∀ (s : PState), s.embedded = none → (runCalls s cs).embedded = none := by
+  induction cs with
+  | nil => intro s h; simpa [runCalls] using h
+  | cons c cs ih => intro s h; simp only [runCalls, List.foldl_cons]; exact ih _ (stepCall_embedded s c h)
+
+/-- compiler_reusable: after ANY history of compile_string / compile_embedded_value calls — failed or not, with any
+    effects on the parser state, including nested includes that failed — a new compile_string starts from the same
+    file / mof / target namespace / embedded-objects state as on a fresh MOFCompiler.  (The caches qualcache,
+    classnames and aliases only grow: `C09_compiler_caches_grow`.) -/
+theorem C09_compiler_reusable (history : List Call) (mof ns : Nat) (filename : Option Nat) :
+    (compilePrologue (runCalls {} history) mof ns filename).view = (compilePrologue {} mof ns filename).view := by
+  have := runCalls_embedded history {} rfl
+  simp [PState.view, compilePrologue, this]
+
+theorem addKey_mem (ks : List Nat) (k x : Nat) (h : x ∈ ks) : x ∈ addKey ks k := by
+  unfold addKey; split <;> simp [h]
+
+theorem foldl_addKey_mem (ns : List Nat) : ∀ (ks : List Nat) (x : Nat), x ∈ ks → x ∈ ns.foldl addKey ks := by
+  induction ns with
+  | nil => intro ks x h; simpa using h
+  | cons n ns ih => intro ks x h; simp only [List.foldl_cons]; exact ih _ x (addKey_mem ks n x h)
+
+/-- a compile never removes a namespace from the qualifier cache (a failed compile leaves what it had registered) -/
+theorem C09_compiler_caches_grow (s : PState) (c : Call) (x : Nat) (h : x ∈ s.qualcacheNs) :
+    x ∈ (stepCall s c).qualcacheNs := by
+  have key : ∀ m n f e, x ∈ (applyEffect (compilePrologue s m n f) e).qualcacheNs := by
+    intro m n f e
+    simp only [applyEffect, compilePrologue]
+    exact foldl_addKey_mem _ _ x (addKey_mem _ _ x h)
+  cases c with
+  | str m n f e ok =>
+    simp only [stepCall, compileString]
+    split
+    · exact key m n f e
+    · split <;> exact key m n f e
+  | emb m n e ok =>
+    simp only [stepCall, compileEmbedded]
+    split <;> exact key m n none e
+
+/-! ## non-vacuity -/
+
+-- the lexer on a small MOF text: tokens, positions, lines
+example : (lexAll ("a = 0x1F;\n/* c\n */ \"s\\x41\" 08 @".toList.map Char.toNat)).map (fun t => (t.kind, t.pos, t.len, t.line)) =
+    [(Kind.ident, 0, 1, 1), (Kind.literal, 2, 1, 1), (Kind.hex, 4, 4, 1), (Kind.literal, 8, 1, 1),
+     (Kind.stringValue, 19, 7, 3), (Kind.errOctal, 27, 2, 3), (Kind.errChar, 30, 1, 3)] := by decide
+example : InsideAt [10, 32, 64] 2 1 := ⟨2, by decide, by decide, by decide, by decide⟩
+example : posInside [10, 32, 64] (tokenErrorPos [10, 32, 64] ⟨.errChar, 2, 1, 2⟩) = true := by decide
+example : pragmaNamespace isIdChar ("root/cimv2".toList.map Char.toNat) = .ok (("root/cimv2".toList.map Char.toNat)) := by decide
+example : pragmaNamespace isIdChar ("http://h/root".toList.map Char.toNat) = .error .mofParseError := by decide
+example : pragmaNamespace isIdChar ("///root".toList.map Char.toNat) = .ok (("root".toList.map Char.toNat)) := by decide
+example : mpCreateInstance (some 11) none true none = .ok () := by decide
+example : mpCreateClass { createClass := [some 4, none], hasServer := false, createNs := none, hasSuper := false,
+    superMof := none, nsInQualcache := true, qualsKnown := true, qualFiles := .ok (), depsOutcome := .ok (),
+    modifyClass := none } = .ok () := by decide
+example : (runCalls {} [.emb 1 2 {} false, .str 3 4 (some 5) { nestedFile := some (6, 7) } false]).file = some 6 := by decide
 
 end C09
